@@ -196,22 +196,30 @@ for _f in range(NF):
     HISTORY3.append(_h.__name__)
 
 
+# Histories of four requests: the three free requests range over a sub-pool of four callables
+# (a closure, a module function, the re-created closure, a bound method) x four option sets:
+# 4 bits per request, 16^3 = 4096 continuations per first request, all of them valid.
+SUBPOOL = (0, 2, 4, 5)
+
+
 def make_history4(f0, o0):
-  def h(a0: bool, a1: bool, a2: bool, a3: bool, a4: bool,
-        b0: bool, b1: bool, b2: bool, b3: bool, b4: bool,
-        c0: bool, c1: bool, c2: bool, c3: bool, c4: bool) -> bool:
+  def h(a0: bool, a1: bool, a2: bool, a3: bool, b0: bool, b1: bool, b2: bool, b3: bool,
+        c0: bool, c1: bool, c2: bool, c3: bool) -> bool:
     """
     post: _
     """
-    v = deep_realize((a0, a1, a2, a3, a4, b0, b1, b2, b3, b4, c0, c1, c2, c3, c4))
+    v = deep_realize((a0, a1, a2, a3, b0, b1, b2, b3, c0, c1, c2, c3))
     with NoTracing():
-      return _run_bits([(f0, o0)], v)
+      reqs = [(f0, o0)]
+      for k in (0, 4, 8):
+        reqs.append((SUBPOOL[int(v[k]) + 2 * int(v[k + 1])], int(v[k + 2]) + 2 * int(v[k + 3])))
+      return _history(reqs)
   h.__name__ = h.__qualname__ = 'history4_%d_%d' % (f0, o0)
   return h
 
 
 HISTORY4 = []
-for _f in (0, 2, 4, 5):          # (a subset of first requests: 4 x 2 harnesses x 32768 continuations)
+for _f in SUBPOOL:
   for _o in (0, 2):
     _h = make_history4(_f, _o)
     globals()[_h.__name__] = _h
@@ -362,4 +370,7 @@ def explain(func, args, kwargs):
     return ('converted_call history: first request (function, options, status) = %s, then 5 bits per request '
             '(f=b0+2b4 in [closure k=1, closure k=5, artifact], o=b1, status=b2+2b3 in [ENABLED, DISABLED, UNSPECIFIED]): %r; options=[recursive, non-recursive]' % (
                 func.split('_')[2:], args))
+  if func.startswith('history4_'):
+    return ('4-request history: first request (f, o) = %s, then 4 bits per request (f=SUBPOOL[b0+2b1] of (0, 2, 4, 5), '
+            'o=b2+2b3): %r' % (func.split('_')[1:], args))
   return 'request history bits (5 per request: f=b0+2b1+4b2, o=b3+2b4) from harness %s: %r; pool=[shared(k=1,d=10), shared(k=5,d=20), v1.target, v2.target, shared(k=2,d=30) re-created, Stepper(3).step, Stepper(6).step]' % (func, args)
